@@ -102,6 +102,12 @@ def build(d, symbolic=False, hooks=None):
       return tuple(build(x, symbolic, hooks) for x in d['$t'])
     if '$q' in d:
       return classes.Opaque(d['$q'])
+    if '$fn' in d:
+      # a functor bound with 1..2 positional arguments (its other arguments stay at their defaults, unspecified)
+      args = d['$fn']
+      if not isinstance(args, list) or not 1 <= len(args) <= 2:
+        raise core.InvalidCase(d)
+      return classes.Fab(*[build(x, symbolic, hooks) for x in args])
     raise core.InvalidCase(d)
   return d
 
@@ -154,7 +160,7 @@ def typed_desc(child):
 
 
 def vdesc(max_leaves=10, keys=None, objects=True, tuples=False, opaque=False,
-          scalars=None, typed=False, extras=False):
+          scalars=None, typed=False, extras=False, functors=False):
   keys = keys if keys is not None else KEYS
   leaves = [scalars if scalars is not None else SCALARS]
   if opaque:
@@ -172,6 +178,8 @@ def vdesc(max_leaves=10, keys=None, objects=True, tuples=False, opaque=False,
         st.just({'$o': 'Req', 'a': {}}), st.just({'$o': 'Req', 'a': {'r': 1}}),
         st.sampled_from([{'$o': 'SD', 'a': {}}, {'$o': 'SD', 'a': {'x': [1, 2], 'y': {'$o': 'P', 'a': {'x': 1}}}}]),
     ))
+  if functors:
+    leaves.append(st.sampled_from([{'$fn': [1]}, {'$fn': [[1, 2]]}, {'$fn': [1, 5]}, {'$fn': [{'$d': [['k', 1]]}, [3]]}]))
   leaf = st.one_of(*leaves)
 
   def ext(c):
